@@ -31,7 +31,7 @@ var props = map[string]*PropDef{
 		Technique:  "guard dominance; value-provenance tracing over definitions; path-sensitive equality tracking in makeString",
 	},
 	"C04": {
-		Rules: []string{"CODEC-1", "FLAGSYM-1", "ALIAS-1"},
+		Rules: []string{"CODEC-1", "FLAGSYM-1", "ALIAS-1", "FIELD-1"},
 		Decided: "writer and reader tables agree for every alternative representation: identical accepted format strings, each base16/32/64 encode/decode/len triple bound to one encoding and chosen consistently, same default encoding, same initFormat and base cases for time/duration, same bit size for formatting and parsing; marshal and unmarshal siblings consult the same two-sided options; struct field index paths are not aliased.",
 		NotDecided: "value equality after a round trip, float bits, time arithmetic (all arithmetic on runtime values).",
 		Technique:  "sibling agreement between marshal/unmarshal closures; table evaluation",
